@@ -237,23 +237,21 @@ Proof.
   rewrite IH. f_equal. ring.
 Qed.
 
-(* J_F(par2fun w) (J_G(w) h) is the derivative of the parameter-to-output map at w along h, for every instance *)
-Theorem par2out_jacobian n A csF b dg w wf JG :
-  geo_jac dg w = Some JG -> g_par2fun dg w = Ok wf -> wf_mat n A -> length wf = n -> length b = length A ->
-  forall h, length h = length w ->
-    length (qmatvec JG h) = n ->
-    dir_deriv (par2out A csF b dg) w h (poly_forward A csF b wf)
-              (qmatvec (poly_jac A (pderiv csF) wf) (qmatvec JG h)).
+(* composition with the model: if u is the derivative of par2fun at w along h, J_F(par2fun w) u is that of the
+   parameter-to-output map *)
+Theorem par2out_dir_deriv n A csF b dg w wf h u :
+  g_par2fun dg w = Ok wf -> wf_mat n A -> length wf = n -> length b = length A -> length u = n ->
+  dir_deriv (g_par2fun dg) w h wf u ->
+  dir_deriv (par2out A csF b dg) w h (poly_forward A csF b wf) (qmatvec (poly_jac A (pderiv csF) wf) u).
 Proof.
-  intros HJG Hw HA Ln Lb h Lh Lu.
-  destruct (geo_jac_is_jacobian dg w wf JG HJG Hw h Lh) as (c2 & L2 & H2).
-  destruct (elementwise_poly_incr _ _ (pderiv_sderiv csF) wf (qmatvec JG h) c2) as (d2 & Ld & Hd); [congruence | exact L2 |].
+  intros Hw HA Ln Lb Lu (c2 & L2 & H2).
+  destruct (elementwise_poly_incr _ _ (pderiv_sderiv csF) wf u c2) as (d2 & Ld & Hd); [congruence | exact L2 |].
   exists (map (fun row => plincomb row d2) A). split.
   - rewrite map_length. unfold poly_forward.
     assert (E : length (qmatvec A (pmap csF wf)) = length A) by (unfold qmatvec; apply matvec_length).
     rewrite qvadd_length_eq by congruence. symmetry. exact E.
   - intros t. unfold par2out. rewrite (H2 t). cbn [rmap]. f_equal. unfold poly_forward, pmap. rewrite (Hd t).
-    set (X := map (peval csF) wf). set (u := qmatvec JG h) in *.
+    set (X := map (peval csF) wf).
     set (Y := vmul (map (peval (pderiv csF)) wf) u). set (Z := pvec_eval d2 t).
     assert (LX : length X = n) by (unfold X; rewrite map_length; exact Ln).
     assert (LY : length Y = n) by (unfold Y; rewrite vmul_length; rewrite map_length; congruence).
@@ -269,6 +267,18 @@ Proof.
     replace (qmatvec (poly_jac A (pderiv csF) wf) u) with (qmatvec A Y).
     + rewrite qvadd_shuffle. reflexivity.
     + rewrite poly_jac_col_scale, matvec_col_scale. unfold Y, pmap. rewrite vmul_comm. reflexivity.
+Qed.
+
+(* J_F(par2fun w) (J_G(w) h) is the derivative of the parameter-to-output map at w along h, for every instance *)
+Theorem par2out_jacobian n A csF b dg w wf JG :
+  geo_jac dg w = Some JG -> g_par2fun dg w = Ok wf -> wf_mat n A -> length wf = n -> length b = length A ->
+  forall h, length h = length w ->
+    length (qmatvec JG h) = n ->
+    dir_deriv (par2out A csF b dg) w h (poly_forward A csF b wf)
+              (qmatvec (poly_jac A (pderiv csF) wf) (qmatvec JG h)).
+Proof.
+  intros HJG Hw HA Ln Lb h Lh Lu.
+  apply (par2out_dir_deriv n); try assumption. apply geo_jac_is_jacobian; assumption.
 Qed.
 
 (* with a well-formed J_G: J_F (J_G h) = (J_F J_G) h, the matrix whose transpose Model.gradient applies (gradient_chain_rule) *)
